@@ -71,9 +71,34 @@ class Sym:
         self.var = A.sym("n3lo_var")
 
 
-def make_esf(sym, process="NC", extra=None):
+def _real_names(proj):
+    """Every attribute name the real EvaluatedStructureFunction (and its TMC sibling) ever binds: class-body names, methods, `self.<name>`
+    stores anywhere in the class."""
+    import ast
+
+    names = set()
+    for mod, cls in (("yadism.esf.esf", "EvaluatedStructureFunction"), ("yadism.esf.tmc", "EvaluatedStructureFunctionTMC")):
+        try:
+            c = proj.cls(mod, cls)
+        except Exception:
+            return None
+        for n in ast.walk(c.node):
+            if isinstance(n, ast.Attribute) and isinstance(n.value, ast.Name) and n.value.id == "self":
+                names.add(n.attr)
+            elif isinstance(n, (ast.FunctionDef, ast.AsyncFunctionDef)):
+                names.add(n.name)
+            elif isinstance(n, ast.Name) and isinstance(n.ctx, ast.Store):
+                names.add(n.id)
+    return names
+
+
+def make_esf(sym, process="NC", extra=None, proj=None):
     info = S.record("info", **(extra or {}))
-    return S.record("ESF", x=sym.xB, Q2=sym.Q2, process=process, info=info)
+    esf = S.record("ESF", x=sym.xB, Q2=sym.Q2, process=process, info=info)
+    real = _real_names(proj) if proj is not None else None
+    if real:
+        esf.attrs["__real_names__"] = real | {"x", "Q2", "process", "info"}
+    return esf
 
 
 _IN_ORDER_CALL = set()
@@ -107,6 +132,11 @@ def _provenance(ev, fv, args, kwargs):
         if isinstance(r, S.ObjVal) and r.cinfo is not None and r.cinfo.name == "RSL":
             c = inst.cinfo
             r.attrs["_owner"] = f"{c.module.name.split('.')[-2]}.{c.module.name.split('.')[-1]}.{c.name}"
+            if inst.attrs.get("m2hq") is not None:
+                try:
+                    r.attrs["_owner_m2hq"] = A.canon(S.num_norm(inst.attrs["m2hq"]))  # the mass the producing channel was built with
+                except Exception:
+                    pass
         return r
     return NotImplemented
 
@@ -120,7 +150,7 @@ def above_threshold_hook(ev, fv, args, kwargs):
 
 
 def instantiate(ev, cinfo, sym, esf=None, nf=None):
-    esf = esf or make_esf(sym)
+    esf = esf or make_esf(sym, proj=ev.proj)
     kw = {}
     for name in init_kwonly(cinfo):
         if name == "m2hq":
